@@ -40,3 +40,22 @@ Definition simple_resolvepackage_src : list dstmt :=
 Definition packagepathorderless_src : list dstmt :=
   [DGuard "eq(strings.Contains(pi,"".""),strings.Contains(pj,"".""))" true (DVal "strings.Contains(pj,""."")");
    DRet (DVal "pi<pj")].
+
+Definition effalias_found_src : list dstmt :=
+  [DGuard "eq(alias,"""")" false (DVal "continue");
+   DIf "has(r.Alias,path)" false [DGuard "eq(r.Alias[path],"""")" false (DVal "continue")];
+   DIf "eq(alias,""_"")" false [DGuard "true(packagesInUse[path])" false (DVal "continue")];
+   DRet (DVal "set(effectiveAlias,path,alias)")].
+
+Definition effalias_manual_src : list dstmt :=
+  [DGuard "eq(alias,"""")" false (DVal "continue");
+   DIf "eq(alias,""_"")" false [DGuard "true(packagesInUse[path])" false (DVal "continue")];
+   DRet (DVal "set(effectiveAlias,path,alias)")].
+
+Definition anonymous_required_src : list dstmt :=
+  [DIf "eq(alias,""_"")" false [DRet (DVal "set(importsRequired,path,true)")]].
+
+Definition resolve_names_src : list dstmt :=
+  [DGuard "has(effectiveAlias,path)" false (DVal "continue");
+   DGuard "fails(r.Resolver.ResolvePackage(path))" false DErr;
+   DRet (DVal "set(resolved,path,r.Resolver.ResolvePackage(path))")].
